@@ -11,6 +11,21 @@ import re
 
 
 PROPS = {
+    "C15": {
+        "coq_targets": ["theories/WF/VerifierProofs.vo"],
+        "harness": ["c15"],
+        "disagreement_is_violation": True,
+        "axioms": [],
+        "trusted_base": COMMON_TB + [
+            "harness/src/c15.rs: the abstraction of each real Instruction to control effect + pops/pushes on six stacks (value stack, register stack, var-path stack, context states, by-ref queue, stack trace), the recognition of the call protocol (PushRet a; Jump t = call with return address a) and of procedure regions (labels :sub:/:fun:). The table is validated, not proved: for every executed instruction of every run the real depths (hook on_instruction) must equal base + frames + certificate",
+            "the certificate is inferred by an untrusted work-list pass in the harness and checked by the Coq function check_cert; WF/Verifier.v's abstract machine takes both sides of every JumpIfFalse and has no error-transfer edges (ON ERROR GOTO / RESUME NEXT after a failing instruction are outside the theorems)",
+            "NOT modelled: the concrete values on the stacks, RETURN <label> (treated as the end of a path), error transfers",
+        ],
+        "assumptions": [
+            "theorems are about the abstract machine; that the real VM's stack movements are those of the abstraction is checked on executed paths only",
+            "no run-time error is handled by ON ERROR inside the statement that raised it (see known finding C15-resume-next-into-block)",
+        ],
+    },
     "C01": {
         "coq_targets": ["theories/VM/Corr.vo", "theories/VM/GenProofs.vo"],
         "harness": ["c01"],
